@@ -878,6 +878,27 @@ fn c10_tool(enc: &Encoded, spec: &EncSpec, tags: &[String], out: &mut Outcome) {
             out.fail("converter_output_differs_from_encoded_content", tags, format!("{:?}: got {:?}, encoded {:?}", a, got.chars().take(300).collect::<String>(), want.chars().take(300).collect::<String>()));
         }
     }
+    // the same file named by a descriptor path, its directory entry already removed: a well-formed
+    // file is one whatever it is called
+    {
+        std::fs::write(dir.join("g.bb"), &enc.bytes).unwrap();
+        let script = format!("exec 3<g.bb; rm -f g.bb; exec ./{} /proc/self/fd/3 ofd.txt -t 1", tool);
+        let r = std::process::Command::new("/bin/bash").arg("-c").arg(&script).current_dir(dir).stdin(std::process::Stdio::null()).stdout(std::process::Stdio::null()).stderr(std::process::Stdio::piped()).output();
+        out.count("tool_convert_runs", 1);
+        out.count("tool_convert_runs_on_a_descriptor_path", 1);
+        match r {
+            Err(e) => out.fail("harness_panic", &[], format!("bash: {}", e)),
+            Ok(o) => {
+                let a = std::fs::read_to_string(dir.join("ofd.txt")).unwrap_or_default();
+                let b = std::fs::read_to_string(dir.join("o1.txt")).unwrap_or_default();
+                if o.status.code() != Some(0) {
+                    out.fail("converter_refuses_well_formed_file", tags, format!("{} on /proc/self/fd/3 (an unlinked file): exit {:?} stderr {}", tool, o.status.code(), String::from_utf8_lossy(&o.stderr).chars().take(300).collect::<String>()));
+                } else if a != b {
+                    out.fail("converter_output_differs_from_encoded_content", tags, format!("{} on /proc/self/fd/3: {} bytes, on the path {} bytes", tool, a.len(), b.len()));
+                }
+            }
+        }
+    }
     if !spec.bed {
         let a: Vec<String> = vec!["bigwiginfo".into(), "f.bb".into()];
         let r = run_in(dir, &a);
